@@ -52,7 +52,8 @@ REQUIRED_COUNTERS = ['tables_compared', 'scripted_generate_calls',
                      'matching_weight_vectors', 'bposd_prior_vectors',
                      'bposd_conditional_updates', 'deformed_tables',
                      'tables_reread_after_decoding',
-                     'models_reused_across_codes']
+                     'models_reused_across_codes',
+                     'models_sharing_label_and_code_objects']
 
 OPTIONS = 'IXYZ'
 
@@ -563,10 +564,26 @@ def run_model(task, out):
     if name == 'XZZX':
         kwargs_list = [{}, {'deformation_axis': 'x'},
                        {'deformation_axis': 'y'}, {'deformation_axis': 'z'}]
-    for kwargs in kwargs_list:
+    # code objects are shared by every model of this task (as the codes of
+    # a batch are shared by its error models); models that only differ in
+    # deformation kwargs, or in the 6th decimal of the direction, print the
+    # same label and must still be told apart
+    shared_codes = {}
+    models = [(direction, kwargs) for kwargs in kwargs_list]
+    nzc = [i for i in range(3) if direction[i] > 1e-3]
+    if len(nzc) >= 2:
+        tw = list(direction)
+        tw[nzc[0]] += 2e-6
+        tw[nzc[1]] -= 2e-6
+        models.append((tuple(tw), kwargs_list[-1]))
+    live = []
+    for mi, (direction, kwargs) in enumerate(models):
         em = PauliErrorModel(*direction, deformation_name=name,
                              deformation_kwargs=dict(kwargs) if kwargs
                              else None)
+        live.append(em)
+        if mi:
+            out.count('models_sharing_label_and_code_objects')
         ncodes = 0
         for cls in classes:
             if kwargs.get('deformation_axis') == 'z' and \
@@ -580,7 +597,9 @@ def run_model(task, out):
             if name is None and tier == 'quick':
                 sizes = sizes[:1]
             for size in sizes:
-                code = fam.build(cls, size)
+                if (cls, size) not in shared_codes:
+                    shared_codes[(cls, size)] = fam.build(cls, size)
+                code = shared_codes[(cls, size)]
                 ncodes += 1
                 mech = 'PauliErrorModel' + (f'/{name}' if name else '')
                 for p in rates:
@@ -607,6 +626,7 @@ def run_model(task, out):
                                       desc)
         if ncodes > 1:
             out.count('models_reused_across_codes')
+    direction = tuple(task['direction'])
     # priors on a deformed (non-CSS) code with plain noise
     if name is None and direction[0] != direction[2]:
         em = PauliErrorModel(*direction)
